@@ -94,3 +94,62 @@ Proof.
   destruct (find_task_id _ _ _ Ef) as [Ex Hin]. subst t.
   destruct (wf_tasks_deps _ _ Hw x d Ef Hd) as [[] | [X _]]. auto.
 Qed.
+
+(* ---- programs with barrier edges -------------------------------------------------------------- *)
+Lemma bprog_sem_frame : forall bp t r r',
+  (forall d, In d (c_deps (bprog_cfg bp) t) -> r d = r' d) -> c_sem (bprog_cfg bp) t r = c_sem (bprog_cfg bp) t r'.
+Proof.
+  intros bp t r r' H. simpl in *. apply (prog_sem_frame (bp_prog bp)). simpl. intros d Hd. apply H.
+  unfold bprog_deps. apply in_or_app. left. exact Hd.
+Qed.
+
+Lemma wf_btasks_deps : forall extra l seen, wf_btasks extra seen l = true ->
+  forall x d, find_task l (t_id x) = Some x -> In d (task_deps x ++ extra_of extra (t_id x)) ->
+    In d seen \/ (In d (map t_id l) /\ pos_of l (t_id x) < pos_of l d).
+Proof.
+  intros extra. induction l as [|y l IH]; simpl; intros seen H x d Hf Hd; [discriminate|].
+  apply andb_true_iff in H. destruct H as [H H3]. apply andb_true_iff in H. destruct H as [H1 H2].
+  apply negb_true_iff in H1.
+  destruct (Pos.eqb (t_id y) (t_id x)) eqn:E.
+  - inversion Hf; subst. left. rewrite forallb_forall in H2. apply mem_In'. auto.
+  - destruct (IH _ H3 x d Hf Hd) as [X | [X Y]].
+    + destruct X as [X | X].
+      * right. subst d. split; [left; auto|]. rewrite Pos.eqb_refl.
+        assert (Z := pos_of_le l (t_id x)). lia.
+      * left. auto.
+    + right. split; [right; auto|]. destruct (Pos.eqb (t_id y) d) eqn:Ed; auto.
+      assert (Z := pos_of_le l (t_id x)). lia.
+Qed.
+
+Lemma bprog_deps_in : forall bp t d, In d (c_deps (bprog_cfg bp) t) ->
+  exists x, find_task (p_tasks (bp_prog bp)) t = Some x /\ In d (task_deps x ++ extra_of (bp_extra bp) t).
+Proof.
+  intros bp t d Hd. simpl in Hd. unfold bprog_deps, prog_deps in Hd.
+  destruct (find_task (p_tasks (bp_prog bp)) t) as [x|] eqn:Ef.
+  - exists x. split; auto. apply in_app_or in Hd. apply in_or_app. destruct Hd as [Hd | Hd]; auto.
+    destruct (mem t _); [auto | contradiction].
+  - exfalso. apply in_app_or in Hd. destruct Hd as [[] | Hd].
+    destruct (mem t (map t_id (p_tasks (bp_prog bp)))) eqn:Em; [|contradiction].
+    apply mem_In' in Em. destruct (find_task_in _ _ Em) as [x Hx]. congruence.
+Qed.
+
+Definition bprog_rank (bp : bprogram) (t : tid) : nat := prog_rank (bp_prog bp) t.
+
+Theorem bprog_rank_deps : forall bp, wf_bprog bp = true ->
+  forall t d, In d (c_deps (bprog_cfg bp) t) -> bprog_rank bp d < bprog_rank bp t.
+Proof.
+  intros bp Hw t d Hd. destruct (bprog_deps_in _ _ _ Hd) as [x [Ef Hin]].
+  destruct (find_task_id _ _ _ Ef) as [Ex Hx]. subst t.
+  destruct (wf_btasks_deps _ _ _ Hw x d Ef Hin) as [[] | [X Y]].
+  unfold bprog_rank, prog_rank. assert (Z := pos_of_le (p_tasks (bp_prog bp)) d).
+  assert (Z' := pos_of_pos (p_tasks (bp_prog bp)) (t_id x)).
+  assert (In (t_id x) (map t_id (p_tasks (bp_prog bp)))) by (apply in_map; auto). specialize (Z' H). lia.
+Qed.
+
+Theorem bprog_tasks_closed : forall bp, wf_bprog bp = true ->
+  forall t d, In t (c_tasks (bprog_cfg bp)) -> In d (c_deps (bprog_cfg bp) t) -> In d (c_tasks (bprog_cfg bp)).
+Proof.
+  intros bp Hw t d Ht Hd. destruct (bprog_deps_in _ _ _ Hd) as [x [Ef Hin]].
+  destruct (find_task_id _ _ _ Ef) as [Ex Hx]. subst t.
+  destruct (wf_btasks_deps _ _ _ Hw x d Ef Hin) as [[] | [X _]]. simpl. auto.
+Qed.
